@@ -11,6 +11,7 @@ recorded in known_findings.jsonl ("fixed:" entries); the same inputs are part
 of the corpora the checks run first on every run.
 """
 import asyncio
+import os
 import sys
 import threading
 
@@ -435,6 +436,52 @@ def c08_upload_over_threshold():
     if not got:
         return "an upload of %d bytes (%d characters on the wire) in 1024-byte reads is never delivered" % (blob.size, len(text))
 
+
+
+
+def c01_blob_definition_overtaken():
+    """KNOWN FINDING (not repaired): BLOB updates travel on their own connection; a definition still in flight on the
+    control connection is overtaken by a later update of the same property, and the client ends up with stale state"""
+    import asyncio
+    import logging
+    import random
+    sys.path.insert(0, os.path.join(os.path.dirname(os.path.abspath(__file__)), "..", "tools"))
+    import comp_dev
+    import comp_sys
+    from indi.client.client import Client
+    from indi.routing import Router
+
+    logging.disable(logging.CRITICAL)
+
+    async def main():
+        router = Router()
+        pipes, tasks = [], []
+        rng = random.Random(0)
+        spec = comp_sys.blob_device()
+        spec["groups"][0]["vectors"][0]["enabled"] = False
+        d = comp_dev.build_driver(spec, [], [], router)
+        cl = Client(comp_sys.FakeConnection(router, "1024", rng, pipes, tasks), comp_sys.FakeConnection(router, "1024", rng, pipes, tasks))
+        await cl.start()
+        await comp_sys.quiesce(pipes)
+        down = cl.control_connection_handler.down          # server -> client direction of the control connection
+        held, feed = [], down.feed
+        down.feed = held.append                            # ... lags
+        vec = d._groups["g0"]._vectors["v0"]
+        vec.enabled = True                                 # definition (control) + update (BLOB connection)
+        vec.state_ = "Busy"                                # update with the new state (BLOB connection)
+        await comp_sys.quiesce([p for p in pipes if p is not down])
+        down.feed = feed
+        for data in held:
+            feed(data)
+        await comp_sys.quiesce(pipes)
+        res = (vec.state_, cl["CAM"]["IMG"].state)
+        for t in tasks:
+            t.cancel()
+        return res
+
+    dev_state, mirror_state = asyncio.run(main())
+    if dev_state != mirror_state:
+        return "all traffic delivered: the device's IMG property is %s, the client shows %s" % (dev_state, mirror_state)
 
 
 
